@@ -1010,6 +1010,209 @@ func (rn *runner) sameStatementBurst() {
 	rn.emit(w, &wg, fmt.Sprintf("burst/fails=%v", fails))
 }
 
+// sequential: one caller at a time. The connection-level Lean machine (PConn + LRU + the replayed server
+// script) predicts the history exactly; op `seq`, answer = the observed history.
+type seqSpec struct {
+	capacity int
+	stable   bool
+	cols     []int
+	pf, xf   string
+	calls    []*callSpec
+}
+
+func stmtWithCols(j, nc int) stmtDef {
+	where := "c = 0"
+	for i := 0; i < nc; i++ {
+		where += fmt.Sprintf(" AND b%d = ?", i)
+	}
+	return stmtDef{text: fmt.Sprintf("SELECT v FROM t%d WHERE %s", j, where), ncols: nc}
+}
+
+func (sp *seqSpec) line() string {
+	var cols, words []string
+	for _, c := range sp.cols {
+		cols = append(cols, strconv.Itoa(c))
+	}
+	for _, cs := range sp.calls {
+		var es []string
+		for _, e := range cs.entries {
+			es = append(es, fmt.Sprintf("%s/%d", keyLabel(cs.host, e.stmt), e.nvals))
+		}
+		kind := "q"
+		if cs.batch {
+			kind = "b"
+		}
+		words = append(words, kind+":"+strings.Join(es, ","))
+	}
+	ids := "fresh"
+	if sp.stable {
+		ids = "stable"
+	}
+	return fmt.Sprintf("seq cap=%d ids=%s cols=%s pf=%s xf=%s %s", sp.capacity, ids, strings.Join(cols, ","), sp.pf, sp.xf, strings.Join(words, " "))
+}
+
+func parseSeq(op string) (*seqSpec, error) {
+	sp := &seqSpec{}
+	for _, w := range strings.Fields(op)[1:] {
+		if i := strings.IndexByte(w, '='); i >= 0 {
+			k, v := w[:i], w[i+1:]
+			switch k {
+			case "cap":
+				sp.capacity, _ = strconv.Atoi(v)
+			case "ids":
+				sp.stable = v == "stable"
+			case "cols":
+				for _, x := range strings.Split(v, ",") {
+					n, _ := strconv.Atoi(x)
+					sp.cols = append(sp.cols, n)
+				}
+			case "pf":
+				sp.pf = v
+			case "xf":
+				sp.xf = v
+			}
+			continue
+		}
+		p := strings.SplitN(w, ":", 2)
+		if len(p) != 2 {
+			return nil, fmt.Errorf("bad call %q", w)
+		}
+		cs := &callSpec{batch: p[0] == "b"}
+		for _, e := range strings.Split(p[1], ",") {
+			var h, st, nv int
+			if _, err := fmt.Sscanf(e, "h%d.s%d/%d", &h, &st, &nv); err != nil || st >= len(sp.cols) {
+				return nil, fmt.Errorf("bad entry %q", e)
+			}
+			cs.host = h
+			cs.entries = append(cs.entries, entrySpec{stmt: st, nvals: nv})
+		}
+		sp.calls = append(sp.calls, cs)
+	}
+	return sp, nil
+}
+
+func runSeqSpec(sp *seqSpec, outdir, tag string) (op string, hung string, err error) {
+	nh := 1
+	for _, cs := range sp.calls {
+		if cs.host+1 > nh {
+			nh = cs.host + 1
+		}
+	}
+	var stmts []stmtDef
+	for j, nc := range sp.cols {
+		stmts = append(stmts, stmtWithCols(j, nc))
+	}
+	w, err := newWorld(nil, worldCfg{nhosts: nh, nconns: 1, capacity: sp.capacity, stmts: stmts, stableID: sp.stable})
+	if err != nil {
+		return "", "", err
+	}
+	nx := 0
+	w.onPrepare = func(n *nodeState, stmt, serial int) (pfate, chan struct{}) {
+		return pfate{fail: serial < len(sp.pf) && sp.pf[serial] == 'e'}, nil
+	}
+	w.onExec = func(n *nodeState, call int, known bool) (xfate, chan struct{}, bool) {
+		if !known || nx >= len(sp.xf) {
+			return xfate{}, nil, true
+		}
+		k := map[byte]int{'o': 0, 'e': 1, 'f': 2, 'u': 3}[sp.xf[nx]]
+		nx++
+		return xfate{kind: k}, nil, true
+	}
+	var wg sync.WaitGroup
+	wg.Add(1)
+	go func() {
+		defer wg.Done()
+		for _, cs := range sp.calls {
+			w.doCall(cs)
+		}
+	}()
+	op, hung = w.finish(&wg, outdir, tag)
+	return op, hung, nil
+}
+
+func replaySeq(op string) string {
+	sp, err := parseSeq(op)
+	if err != nil {
+		return "bad-op"
+	}
+	tr, _, err := runSeqSpec(sp, os.TempDir(), "replay")
+	if err != nil {
+		return "no-session"
+	}
+	return strings.TrimPrefix(tr, "trace ")
+}
+
+func (rn *runner) sequential() {
+	r := rn.r
+	nst := 1 + r.Intn(4)
+	sp := &seqSpec{capacity: []int{1, 1, 2, 2, 3, 1000, 0}[r.Intn(7)], stable: r.Intn(3) == 0}
+	for j := 0; j < nst; j++ {
+		sp.cols = append(sp.cols, r.Intn(4))
+	}
+	nhosts := 1 + r.Intn(2)
+	pf := make([]byte, 60)
+	for i := range pf {
+		pf[i] = 'o'
+		if r.Intn(5) == 0 {
+			pf[i] = 'e'
+		}
+	}
+	xf := make([]byte, 80)
+	for i := range xf {
+		switch x := r.Intn(100); {
+		case x < 8:
+			xf[i] = 'e'
+		case x < 24:
+			xf[i] = 'f'
+		case x < 30:
+			xf[i] = 'u'
+		default:
+			xf[i] = 'o'
+		}
+	}
+	sp.pf, sp.xf = string(pf), string(xf)
+	for i, n := 0, 3+r.Intn(9); i < n; i++ {
+		cs := &callSpec{host: r.Intn(nhosts)}
+		pick := func() entrySpec {
+			s := r.Intn(nst)
+			e := entrySpec{stmt: s, nvals: sp.cols[s]}
+			if r.Intn(10) == 0 {
+				e.nvals = r.Intn(4)
+			}
+			return e
+		}
+		if r.Intn(3) == 0 {
+			cs.batch = true
+			for k, m := 0, 1+r.Intn(3); k < m; k++ {
+				e := pick()
+				if e.nvals == 0 {
+					e.nvals = 1
+				}
+				cs.entries = append(cs.entries, e)
+			}
+		} else {
+			cs.entries = []entrySpec{pick()}
+		}
+		sp.calls = append(sp.calls, cs)
+	}
+	rn.seq++
+	op, hung, err := runSeqSpec(sp, rn.outdir, fmt.Sprintf("%d", rn.seq))
+	if err != nil {
+		rn.out.Case("trace Z:no-session", "accept", "conc/no-session", true)
+		return
+	}
+	if hung != "" {
+		rn.nhang++
+	}
+	rn.out.Case(sp.line(), strings.TrimPrefix(op, "trace "), fmt.Sprintf("seq/hosts%d/cap%d", nhosts, sp.capacity), true)
+	// the same history is also judged by the specification
+	rn.out.Case(op, "accept", "seq-trace", true)
+	rn.out.Dist["seq-events/unprepared"] += strings.Count(op, ":un/")
+	rn.out.Dist["seq-events/evictions+removals"] += strings.Count(op, " R:")
+	rn.out.Dist["seq-events/count-error"] += strings.Count(op, ":ce")
+	rn.out.Dist["seq-events/prepare-error-returned"] += strings.Count(op, ":pe/")
+}
+
 func sessionTier(r *vh.Rng, out *vh.Out, outdir string, mult int) {
 	rn := &runner{r: r, out: out, outdir: outdir}
 	maxHangs := 1
@@ -1024,6 +1227,9 @@ func sessionTier(r *vh.Rng, out *vh.Out, outdir string, mult int) {
 	}
 	for i := 0; i < 6*mult; i++ {
 		steps = append(steps, func() { rn.retryUnderContention(60) })
+	}
+	for i := 0; i < 120*mult; i++ {
+		steps = append(steps, rn.sequential)
 	}
 	for i := 0; i < 150*mult; i++ {
 		steps = append(steps, rn.random)
